@@ -632,7 +632,7 @@ pub fn run_fuzz(ctx: &Ctx, target: &str, secs: u64, workers: usize, max_len: usi
 	}
 	let corpus_n = std::fs::read_dir(&corpus).map(|d| d.count()).unwrap_or(0);
 	ctx.evals(execs);
-	ctx.put(&format!("libfuzzer:{}", target), json!({"executions": execs, "jobs": logs, "seconds": secs, "seed_inputs": seeds.len(), "final_corpus": corpus_n, "sanitizer": "none (peppi has no unsafe code; speed preferred)"}));
+	ctx.put(&format!("libfuzzer:{}:{}seeds", target, seeds.len()), json!({"executions": execs, "jobs": logs, "seconds": secs, "seed_inputs": seeds.len(), "final_corpus": corpus_n, "sanitizer": "none (peppi has no unsafe code; speed preferred)"}));
 	let mut found = None;
 	let mut inconclusive = false;
 	if let Ok(rd) = std::fs::read_dir(&arts) {
